@@ -10,6 +10,14 @@ IEEE-754 bit pattern; `N` = None.
   res ci  <dist> <p> <pthr|N> <size> <lo|N> <hi|N>            ciANIResult(...)
   mh <kind> <lenA> <lenB> <common> <scaled> <k> <accA> <accB> <v1> <v2>
         kind ∈ cont max avg jac; v1 = A.f(B), v2 = B.f(A) (f = contained_by / max_containment / jaccard), acc = size_is_accurate()
+  sia <len> <scaled> <rel> <conf> <cdfHi> <cdfLo> <pmfLo|N>    MinHash(len hashes, scaled).size_is_accurate(rel, conf); the three scipy
+        results are INPUTS; the model reproduces which scipy calls are made, with which arguments, the probability and the answer
+  pyvar <L> <k> <r1>                                          distance_utils.var_n_mutated(L, k, r1)
+  nat ani|inc-ani <c> <k>            nat q <k> <r1>           nat exp|var|exp2 <L> <k> <r1>       nat pnc <ani> <k> <scaled> <n>
+        the native twin src/core/src/ani_utils.rs, executed by rust-harness (`smharness ani`), modelled operation by operation
+  nat ci|inc-ci <c> <k> <scaled> <n> <conf|N> <alo> <ahi>     nat probit <p> <z>
+        statrs / roots are not modelled: the model answers the two exact branches of `ani_ci_from_containment` itself and
+        otherwise echoes the pasted result (these ops are judged by the oracle: D17, agreement with the Python twin)
 -/
 import SmVerif.Model.AniResult
 import SmVerif.Model.Proto
@@ -98,6 +106,77 @@ def step (st : Unit) (line : String) : Unit × String :=
         | .ok a => (st, head ++ "ok ani=" ++ ofb a)
         | .error e => (st, head ++ "err " ++ e)
       | _ => bad
+    | _, _, _, _, _ => bad
+  | ["sia", len, scaled, rel, conf, cdfHi, cdfLo, pmfLo] =>
+    match nats? [len, scaled], fl? rel, fl? conf, fl? cdfHi, fl? cdfLo, optFl? pmfLo with
+    | some [len, scaled], some rel, some conf, some cdfHi, some cdfLo, some pmfLo =>
+      match sizeIsAccurate scaled rel conf (0.5 : Float) with
+      | .typeError => (st, "err TypeError")
+      | .valueError => (st, "err ValueError")
+      | .answer _ =>
+        let setSize := len * scaled
+        let (hi, lo, isInt) := setSizeArgs setSize scaled rel
+        match isInt, pmfLo with
+        | true, none => bad
+        | false, some _ => bad
+        | _, _ =>
+          let prob := setSizeExactProb isInt cdfHi cdfLo (pmfLo.getD 0.0)
+          let acc := match sizeIsAccurate scaled rel conf prob with
+            | .answer a => a
+            | _ => false
+          let calls := s!"cdf:{fb hi},cdf:{fb lo}" ++ (if isInt then s!",pmf:{fb lo}" else "")
+          (st, s!"ok calls={calls} vals={fb cdfHi},{fb cdfLo},{ofb pmfLo} n={setSize} p={fb (1 / scaled.toFloat)} prob={fb prob} acc={b2s acc}")
+    | _, _, _, _, _, _ => bad
+  | ["pyvar", l, k, r1] =>
+    match nats? [l, k], fl? r1 with
+    | some [l, k], some r1 =>
+      match varNMutated l.toFloat k r1 with
+      | .ok v => (st, s!"ok v={fb v}")
+      | .error e => (st, "err " ++ e)
+    | _, _ => bad
+  | ["nat", which, c, k] =>
+    if which = "ani" ∨ which = "inc-ani" then
+      match fl? c, nat? k with
+      | some c, some k => if k = 0 then bad else (st, s!"ok ani={fb (rustAniFromContainment c k.toFloat)}")
+      | _, _ => bad
+    else if which = "q" then
+      match nat? c, fl? k with
+      | some k, some r1 => (st, s!"ok q={fb (rustR1ToQ k r1)}")
+      | _, _ => bad
+    else if which = "probit" then
+      match fl? c, fl? k with
+      | some _, some z => (st, s!"ok z={fb z}")
+      | _, _ => bad
+    else bad
+  | ["nat", which, l, k, r1] =>
+    match nats? [l, k], fl? r1 with
+    | some [l, k], some r1 =>
+      if which = "exp" then (st, s!"ok e={fb (rustExpNMutated l.toFloat k r1)}")
+      else if which = "var" then
+        match rustVarNMutated l.toFloat k r1 with
+        | .ok v => (st, s!"ok v={fb v}")
+        | .error e => (st, "err " ++ e)
+      else if which = "exp2" then
+        match rustExpNMutatedSquared l.toFloat k r1 with
+        | .ok v => (st, s!"ok v={fb v}")
+        | .error e => (st, "err " ++ e)
+      else bad
+    | _, _ => bad
+  | ["nat", "pnc", ani, k, scaled, n] =>
+    match fl? ani, nats? [k, scaled, n] with
+    | some ani, some [k, scaled, n] =>
+      if scaled = 0 then bad else
+      (st, s!"ok p={fb (rustPNothingInCommon ani k (1.0 / scaled.toFloat) n.toFloat)}")
+    | _, _ => bad
+  | ["nat", which, c, k, scaled, n, conf, alo, ahi] =>
+    if which ≠ "ci" ∧ which ≠ "inc-ci" then bad else
+    match fl? c, nats? [k, scaled, n], optFl? conf, optFl? alo, optFl? ahi with
+    | some c, some [k, scaled, _], some _, some alo, some ahi =>
+      if k = 0 ∨ scaled = 0 then bad else
+      match rustAniCiExact c, alo, ahi with
+      | some (lo, hi), _, _ => (st, s!"ok alo={fb lo} ahi={fb hi}")
+      | none, some lo, some hi => (st, s!"ok alo={fb lo} ahi={fb hi}")
+      | none, _, _ => (st, "err ANIEstimationError")
     | _, _, _, _, _ => bad
   | _ => bad
 
